@@ -109,7 +109,10 @@ class C06(fw.Property):
             "at random, idle times from a table around MAX_TRANSMIT_WAIT and twice that (+-1 us) or uniform in [0,3T]; NoCacheKey options (Size1/Size2) and Observe vary per block. "
             "Compared per event: handler invocations (endpoint, code, options, block options, body, mid), response (code, Block1, Block2, payload), number of assemblies / renderings held. "
             "Non-trivial = a multi-block body reached the handler or a NUM>0 block was served, and some request was rejected (4.00/4.08); distinct by full input. "
-            "thorough adds every sequence of length <= 4 over 8 Block1/idle letters and over 7 Block2/idle letters.")
+            "Every 5th case is a supersede scenario (rendering stored / complete answer pops it, mostly emptying the cache / stored again / idle chosen relative to the FIRST timer's deadline / NUM>0); "
+            "idle times are also anchored at earlier events' time + T or 2T (+-1 us). Stream timeoutdict_ops (every 5th case): get/set/pop/advance histories over 3 keys on the real TimeoutDict vs Model drun, "
+            "comparing returned values, keys held and the deadline of the pending timer after every op; oracle = lifetime bounds. "
+            "thorough adds every sequence of length <= 4 over 8 Block1/idle letters, over 7 Block2/idle letters and over 8 TimeoutDict op letters.")
     trusted_base = ["hand-written Model/C06.v (validated by the block_sequences stream on every run)",
                     "harness: virtual-time loop (ideal timers), fake endpoints/transport, message codec of aiocoap used to put requests on the simulated wire",
                     "Site path stripping is mirrored by the harness (resource index + remaining Uri-Path), not modelled"]
@@ -387,6 +390,10 @@ class C06(fw.Property):
                 for L in range(1, 5):
                     for seq in itertools.product(alpha, repeat=L):
                         yield "block_sequences", {"endpoints": ep, "events": [dict(e) for e in seq] + [{"t": "adv", "dt": 0}]}
+            A3 = [["set", 0, 1], ["set", 1, 2], ["get", 0], ["pop", 0], ["pop", 1], ["adv", T_US // 2], ["adv", T_US - 1], ["adv", T_US]]
+            for L in range(1, 5):
+                for seq in itertools.product(A3, repeat=L):
+                    yield "timeoutdict_ops", {"ops": [list(o) for o in seq] + [["get", 0], ["get", 1]]}
 
 def list_or_int(x): return list(x) if isinstance(x, (list, tuple)) else x
 
